@@ -11,9 +11,23 @@ try:
         p = os.path.join(tmp, "w", f)
         s = open(p).read()
         old = old.encode().decode("unicode_escape"); new = new.encode().decode("unicode_escape")
-        if s.count(old) != 1:
+        nth = 0
+        import re as _re
+        m = _re.search(r"@@(\d+)$", old)
+        if m:
+            nth = int(m.group(1)); old = old[:m.start()]
+        if nth == 0 and s.count(old) != 1:
             print("ERROR: %r occurs %d times in %s" % (old, s.count(old), f)); sys.exit(1)
-        open(p, "w").write(s.replace(old, new))
+        if nth:
+            pos = -1
+            for _ in range(nth):
+                pos = s.find(old, pos + 1)
+                if pos < 0:
+                    print("ERROR: occurrence %d of %r not found in %s" % (nth, old, f)); sys.exit(1)
+            s = s[:pos] + new + s[pos + len(old):]
+        else:
+            s = s.replace(old, new)
+        open(p, "w").write(s)
     d = subprocess.run(["git", "-C", tmp + "/w", "diff"], stdout=subprocess.PIPE, text=True).stdout
     out = os.path.join(os.path.dirname(os.path.abspath(__file__)), "mutants", name + ".diff")
     open(out, "w").write("# props: %s\n# what: %s\n%s" % (props, what, d))
